@@ -795,11 +795,32 @@ func predIndex(b, p *ssa.BasicBlock) int {
 	return 0
 }
 
+var autoRangeInv = func() NamedExpr {
+	e, _ := parseSpec("rangeindex >= 0 - 1")
+	return NamedExpr{Name: "auto_rangeindex", Src: "rangeindex >= -1 (generated for range loops)", E: e}
+}()
+
 func (x *Exec) loopInvs(ord int) []NamedExpr {
 	if x.c == nil {
 		return nil
 	}
-	return x.c.Loops[ord]
+	invs := x.c.Loops[ord]
+	// generated invariant for 'for i := range slice' loops: the hidden index starts at -1
+	for h, o := range x.headers {
+		if o != ord {
+			continue
+		}
+		for _, ins := range h.Instrs {
+			phi, ok := ins.(*ssa.Phi)
+			if !ok {
+				break
+			}
+			if phi.Comment == "rangeindex" {
+				invs = append([]NamedExpr{autoRangeInv}, invs...)
+			}
+		}
+	}
+	return invs
 }
 
 // loopModified discovers which state variables the loop body may write, by a
